@@ -32,7 +32,7 @@ func init() {
 		return []*Result{c.RuleErrorfNil(), c.RuleLineKeep(c.lineKeepScope(), 0), c.RuleLitGuard(), c.RuleLocComment(), c.RuleDefKept(), c.RuleCacheReader(), c.RuleAppendAlias(), c.RulePathForm(), c.RuleLoopReplace(), c.RuleStdoutNone("update"), c.RuleOperandVerbatim(), c.RuleWalkStop()}
 	}}
 	Properties["X-R9"] = &Property{ID: "X-R9", Level: "other", Run: func(c *Ctx, tier string) []*Result {
-		return []*Result{c.RuleCaptureRaw(), c.RuleFormatLine()}
+		return []*Result{c.RuleCaptureRaw(), c.RuleFormatLine(), c.RuleRecvCopy(), c.RuleIdxCall()}
 	}}
 	Properties["X-R5"] = &Property{ID: "X-R5", Level: "other", Run: func(c *Ctx, tier string) []*Result {
 		return []*Result{c.RuleReadLine(), c.RuleBorrow(), c.RuleBufwFlush(), c.RuleSearchResume(), c.RuleIdxArray(), c.RuleIncludeFrame(), c.RuleIncludePass(), c.RuleCmdTypeEnum(), c.RuleBuildVars(), c.RuleExclOrder(), c.RuleScanSplit(), c.RuleDoubleWrap(), c.RuleGoShared(), c.RuleCtorDefaults()}
